@@ -61,3 +61,37 @@ package otlploghttp
 //@   ensures !s.Set ==> r.Set && r.Value == val
 //@   ensures s.Set ==> r == s
 //@   modifies
+
+// ======================================================================== C20 programmatic options of the log exporter
+// an option, once applied, leaves ITS setting set to exactly the value passed - whatever that value is (an empty header map, a zero
+// timeout and an empty string are values too: the environment must not take over) - and touches no other setting
+//@ func WithEndpoint$1(c config) (r config)
+//@   prop C20
+//@   overflow assumed
+//@   ensures r.endpoint.Set && r.endpoint.Value == endpoint
+//@   ensures r.path == c.path && r.insecure == c.insecure && r.compression == c.compression && r.timeout == c.timeout && r.headers == c.headers
+//@ func WithCompression$1(c config) (r config)
+//@   prop C20
+//@   overflow assumed
+//@   ensures r.compression.Set && r.compression.Value == compression
+//@   ensures r.endpoint == c.endpoint && r.path == c.path && r.insecure == c.insecure && r.timeout == c.timeout && r.headers == c.headers
+//@ func WithURLPath$1(c config) (r config)
+//@   prop C20
+//@   overflow assumed
+//@   ensures r.path.Set && r.path.Value == urlPath
+//@   ensures r.endpoint == c.endpoint && r.insecure == c.insecure && r.compression == c.compression && r.timeout == c.timeout && r.headers == c.headers
+//@ func WithInsecure$1(c config) (r config)
+//@   prop C20
+//@   overflow assumed
+//@   ensures r.insecure.Set && r.insecure.Value == true
+//@   ensures r.endpoint == c.endpoint && r.path == c.path && r.compression == c.compression && r.timeout == c.timeout && r.headers == c.headers
+//@ func WithHeaders$1(c config) (r config)
+//@   prop C20
+//@   overflow assumed
+//@   ensures r.headers.Set && r.headers.Value == headers
+//@   ensures r.endpoint == c.endpoint && r.path == c.path && r.insecure == c.insecure && r.compression == c.compression && r.timeout == c.timeout
+//@ func WithTimeout$1(c config) (r config)
+//@   prop C20
+//@   overflow assumed
+//@   ensures r.timeout.Set && r.timeout.Value == duration
+//@   ensures r.endpoint == c.endpoint && r.path == c.path && r.insecure == c.insecure && r.compression == c.compression && r.headers == c.headers
